@@ -24,6 +24,7 @@ struct Pin {
     int order = 0;       // where the length option goes: 0 first, 1 between, 2 last
     bool digest_before_type = false;
     bool validate_lead_first = false;
+    int retype = 0; long type2 = -1;   // after the digest: set the checksum type once more (1) / and the digest again (2)
 };
 
 struct Verdict { bool setters_ok; bool accepted; std::string detail; };
@@ -48,11 +49,20 @@ static std::string run_pin(const Bytes &file, const ref::Header &h, const Pin &p
     if (p.digest_before_type) { set_digest(false); if (zck_is_error(z) < 2) { (void)zck_clear_error(z); set_type(); } }
     else { set_type(); if (p.order == 1) set_len(); set_digest(p.type_mode != 0); }
     if (p.order == 2 || (p.order == 1 && p.digest_before_type)) set_len();
+    // the checksum type set once more AFTER the digest was pinned: the setter may refuse (then nothing changes) or accept (then the
+    // new type is pinned) - but the digest the caller pinned stays pinned either way
+    long eff_type = p.type; bool have_eff_type = p.type_mode != 0;
+    if (p.retype && !p.digest_before_type && p.type_mode && digest_set) {
+        bool ok = zck_set_ioption(z, ZCK_VAL_HEADER_HASH_TYPE, p.type2);
+        if (ok) { eff_type = p.type2; note += ""; } else (void)zck_clear_error(z);
+        if (ok && p.retype == 2) { bool ok2 = zck_set_soption(z, ZCK_VAL_HEADER_DIGEST, p.digest.data(), p.digest.size()); if (!ok2) { (void)zck_clear_error(z); } }
+    }
     if (lib_setter_ok != model_setter_ok) { zck_free(&z); close(fd); return "setter"; }
     if (!lib_setter_ok) { zck_free(&z); close(fd); return ""; }       // both refuse: fine
     // model of acceptance
     model_accept = true;
-    if (p.type_mode && p.type != (long)h.hash_type) model_accept = false;
+    if (have_eff_type && eff_type != (long)h.hash_type) model_accept = false;
+    if (p.have_digest && model_accept && p.digest.size() != 2 * h.header_digest.size()) model_accept = false;      // a digest pinned for another type cannot equal this file's
     if (p.have_digest && model_accept) {
         for (size_t i = 0; i < h.header_digest.size(); i++) if ((hexval(p.digest[2 * i]) << 4 | hexval(p.digest[2 * i + 1])) != h.header_digest[i]) model_accept = false;
     }
@@ -88,7 +98,7 @@ static void check(Ctx &c, const Bytes &file, const ref::Header &h, const Pin &p,
     bool ms = false, ma = false, ls = false, la = false;
     std::string r = run_pin(file, h, p, ms, ma, ls, la);
     std::string ctx = what + " [type=" + (p.type_mode ? std::to_string(p.type) : "unset") + " digest=" + (p.have_digest ? "'" + pbt::json_escape(p.digest) + "'" : "unset") +
-        " len=" + (p.len_mode ? std::to_string(p.len) : "unset") + " order=" + std::to_string(p.order) + (p.digest_before_type ? " digest-before-type" : "") + (p.validate_lead_first ? " validate_lead" : "") +
+        " len=" + (p.len_mode ? std::to_string(p.len) : "unset") + " order=" + std::to_string(p.order) + (p.digest_before_type ? " digest-before-type" : "") + (p.validate_lead_first ? " validate_lead" : "") + (p.retype ? " then type:=" + std::to_string(p.type2) + (p.retype == 2 ? " and the digest again" : "") : "") +
         "; file type=" + std::to_string(h.hash_type) + " len=" + std::to_string(h.total_size) + "]";
     if (r == "setter") c.fail(ls ? "setter-accepts-invalid" : "setter-rejects-valid", std::string("digest/type/length setter ") + (ls ? "accepted" : "refused") + " but the model says the opposite: " + ctx);
     if (!r.empty()) c.fail(r.substr(0, r.find(':')), r + " " + ctx);
@@ -121,6 +131,7 @@ static void prop(Ctx &c) {
     else if (dm == 7) { Bytes d = h.header_digest; d.resize(pds, 0x11); p.digest = hexstr(d, nullptr); }
     uint64_t lm = c.draw(5); p.len_mode = lm != 0; p.len = lm == 1 || lm == 2 ? (long)h.total_size : lm == 3 ? (long)h.total_size + 1 : lm == 4 ? (long)h.total_size - 1 : (long)c.draw(2) * 1000 - 1000 + (long)c.draw(3);
     p.order = (int)c.draw(2); p.digest_before_type = p.have_digest && c.rarely(5); p.validate_lead_first = c.boolean();
+    if (c.gver >= 2 && p.have_digest && p.type_mode && c.rarely(4)) { p.retype = 1 + (int)c.draw(1); p.type2 = c.boolean() ? p.type : c.boolean() ? T : (long)c.draw(3); c.label("type-set-again-after-digest"); }
     if (p.type_mode || p.have_digest || p.len_mode) c.nontrivial();
     c.label(p.type_mode ? "type-pinned" : "type-unset"); c.label(p.have_digest ? "digest-pinned" : "digest-unset"); c.label(p.len_mode ? "len-pinned" : "len-unset");
     c.desc << " pin{type=" << (p.type_mode ? std::to_string(p.type) : "unset") << " digest=" << (p.have_digest ? pbt::json_escape(p.digest) : "unset") << " len=" << (p.len_mode ? std::to_string(p.len) : "unset") << "}";
